@@ -140,6 +140,33 @@ def run_pack(ctx):
     return mod
 
 
+def multi_config(ctx, mod, configs=('rel-coll', 'rel-default')):
+    """thorough tier: repeat the rule pack on the other feature configurations the crate is built in
+    (floors are calibrated on the all-features build and are not applied to the smaller ones)"""
+    import inspect
+    if 'config' not in inspect.signature(mod.run).parameters:
+        return
+    for cfg in configs:
+        sub = Ctx(ctx.pid, 'quick', ctx.seed)
+        sub.repo = ctx.repo
+        try:
+            mod.run(sub, cfg)
+        except KeyError as e:
+            ctx.note('configuration %s: anchor %s absent (feature-gated code)' % (cfg, e))
+            continue
+        for v in sub.violations:
+            if v['function'] in ('<floor>', '<anchor>'):
+                continue
+            if not any(x['key'] == v['key'] for x in ctx.violations):
+                v = dict(v)
+                v['message'] += ' [configuration %s]' % cfg
+                ctx.violations.append(v)
+        for k, n in sub.counts.items():
+            ctx.counts[k] = ctx.counts.get(k, 0) + n
+        ctx.instances.extend(('%s@%s' % (r, cfg), st, how) for r, st, how in sub.instances[:8])
+        ctx.configs_used.extend(sub.configs_used)
+
+
 def kill_tests(pid, tier, seed):
     """thorough tier: apply each armed seeded edit to a scratch copy and require the pack to fire"""
     out = []
@@ -205,6 +232,7 @@ def main(argv):
     if tier == 'thorough':
         if hasattr(mod, 'thorough'):
             mod.thorough(ctx)
+        multi_config(ctx, mod)
         kt, ok = kill_tests(pid, tier, seed)
         ctx.kill_tests = kt
         checker_ok = ok
